@@ -338,7 +338,7 @@ func c08Configs(tier string) []*xplore.Config {
 	var cfs []cf
 	hd := 5
 	if tier == "thorough" {
-		hd = 7
+		hd = 6
 	}
 	for _, proto := range []string{"tcp", "udp"} {
 		for i, sq := range []uint32{0, 1 << 31, 1<<32 - 3, 1<<32 - 1} {
@@ -346,6 +346,9 @@ func c08Configs(tier string) []*xplore.Config {
 			d := hd
 			if sq != 0 && sq != 1<<32-3 {
 				d = hd - 1
+			}
+			if tier == "thorough" && sq == 1<<32-3 && proto == "tcp" {
+				d = 7 // the wrap-around start is the one explored deepest
 			}
 			cfs = append(cfs, cf{proto, sq, now, d})
 		}
